@@ -29,6 +29,12 @@ fn rec(id: u16, c: &mut Cpu, a: u16, b: u16) -> anyhow::Result<u8> {
 }
 
 include!(concat!(env!("KOGE29_VERIF_DIR"), "/kani/c07_gen.rs"));
+include!(concat!(env!("KOGE29_VERIF_DIR"), "/kani/c07_guard_gen.rs"));
+
+/// used by the any-encoding harnesses of C15 (thorough tier)
+pub fn exec_guard_pub(id: u16, op: u16, op2: u16) -> bool {
+    exec_guard(id, op, op2)
+}
 
 /// one named obligation per unimplemented manual instruction: rejected, never run as another instruction
 macro_rules! unimpl_obligations {
@@ -55,6 +61,9 @@ fn dispatch_contract(lo: u8, hi: u8) {
     let exp = isa::step(&su.st0, &su.wd, &mut seam::InitView);
     let (called, ncalls, a1, a2, pcc) = unsafe { (CALLED, NCALLS, A1, A2, PC_AT_CALL) };
     let first = ((b0 as u16) << 8) | b1 as u16;
+    // self-check of the generated guards (what exec guarantees about the words it hands to a target): whenever a
+    // target was called, the guard generated for it from exec's text holds for the words exec passed
+    assert!(ncalls != 1 || exec_guard(called, first, w[0]), "OBL:SELF/dispatch/generated_guards_hold");
     match exp.kind {
         isa::Kind::Exec => {
             let (want, pre, k1, k2) = expected(exp.form);
